@@ -165,3 +165,74 @@ def run(funcs, results):
             fn(funcs, results)
         except (e2.Refuse, KeyError, IndexError) as ex:
             results.append({'name': f'samplers.{fn.__name__}', 'tags': ['C03', 'C04'], 'verdict': 'refused', 'detail': repr(ex)})
+
+
+def sample_in_ball(funcs, results):
+    """Algorithm 29: prefix (H(rho), 8 sign bytes, i from 256 - tau to 255) and one outer-loop iteration from an arbitrary state"""
+    import lemmas as LM
+    tags = ['C03', 'C02', 'C01']
+    fn = 'sample_in_ball'
+    f = funcs[fn]
+    entry, head, opt = LM.loop_anchor(f, 'i')
+    E0, pre = skel.extract(funcs, fn, params={'CTEST': False}, stop=(head,))
+    pp = [p for p in pre if p.stop == head]
+    okp = len(pp) == 1
+    det = ''
+    if okp:
+        calls = pp[0].calls
+        hx = [c for c in calls if skel.short_callee(c['callee']) == 'h256_xof']
+        rd = [c for c in calls if skel.short_callee(c['callee']) == 'XofReader>::read']
+        rg = [c for c in calls if 'RangeInclusive' in c['callee'] and c['callee'].endswith('new')]
+        tau = z3.BitVec('arg:tau', 32)
+        okp = (len(hx) == 1 and hx[0]['args'] == ['&[&rho]'] and len(rd) == 1 and rd[0]['args'][0] == '&' + hx[0]['result'] and rd[0]['argtys'][1] == '&mut [u8; 8]'
+               and len(rg) == 1 and prove(tau >= 0, tau <= 64, z3.Or(rg[0]['argv'][0].t != 256 - z3.ZeroExt(32, tau), rg[0]['argv'][1].t != 255)))
+        det = str([c['args'] for c in hx + rd + rg])[:200]
+    ob(results, 'sample_in_ball: ctx = H.Absorb(rho); 8 sign bytes squeezed first; i runs from 256 - tau to 255', tags, okp, det)
+    if not okp:
+        return
+    # one iteration of the outer loop
+    Ex = e2.Exec(funcs, mode='bv', inline=set(), params={'CTEST': False}); Ex.cut_loops = True
+    st = dict(pp[0].st); st.pop('@stop', None); st.pop('@trail', None); st['@calls'] = ()
+    i = z3.BitVec('i', 64)
+    C = z3.Array('C', z3.BitVecSort(64), z3.BitVecSort(32)); H = z3.Array('Hs', z3.BitVecSort(64), z3.BitVecSort(8))
+    cl = f.debug_of['c']; hl = f.debug_of['h']
+    st[opt] = e2.Enum(z3.BitVecVal(1, 64), {1: [e2.Val(i, 'usize')]})
+    st['@arrays'] = {cl + '.0': C, hl: H}
+    st.pop(hl, None); st.pop(cl, None)
+    res, obl = Ex.run(fn, [], init=st, start=entry, stop=(head,))
+    done = [(pc, s) for pc, s in res if isinstance(s, dict) and s.get('@stop') == head]
+    again = [skel.Path(Ex, pc, s) for pc, s in Ex.path_states if isinstance(s, dict) and str(s.get('@stop', '')).startswith('loop:')]
+    tau = z3.ZeroExt(32, z3.BitVec('arg:tau', 32))
+    pre_i = z3.And(z3.UGE(i, 256 - tau), z3.ULE(i, 255), z3.ULE(tau, 64), z3.UGE(tau, 1))
+    good = len(done) >= 1 and len(again) >= 1
+    k = z3.BitVec('k', 64)
+    for pc, s in done:
+        calls = [Ex.call_records[c] for c in s.get('@calls', ())]
+        rds = [c for c in calls if skel.short_callee(c['callee']) == 'XofReader>::read']
+        good &= len(rds) >= 1 and all(c['argtys'][1] == '&mut [u8; 1]' for c in rds)
+        if not rds:
+            continue
+        j0 = z3.ZeroExt(56, z3.BitVec(f'out1:{rds[-1]["result"][5:]}[0]', 8))
+        C1 = s['@arrays'][cl + '.0']
+        idx = i + tau - 256
+        bit = z3.LShR(z3.Select(H, z3.LShR(idx, 3)), z3.Extract(7, 0, idx & 7)) & 1
+        want = z3.Store(z3.Store(C, i, z3.Select(C, j0)), j0, 1 - 2 * z3.ZeroExt(24, bit))
+        good &= prove(pre_i, pc, z3.UGT(j0, i))                       # the accepted j satisfies j <= i
+        good &= prove(pre_i, pc, z3.Select(C1, k) != z3.Select(want, k))
+    for p in again:
+        rds = [c for c in p.calls if skel.short_callee(c['callee']) == 'XofReader>::read']
+        if rds:
+            jb = z3.ZeroExt(56, z3.BitVec(f'out1:{rds[0]["result"][5:]}[0]', 8))
+            good &= prove(pre_i, p.pc, z3.ULE(jb, i))                 # another byte is squeezed only while j > i
+    ob(results, 'sample_in_ball: one iteration from an arbitrary state: squeeze j until j <= i; c[i] = c[j]; c[j] = (-1)^h[i + tau - 256]', tags, good, f'{len(done)} completing paths, {len(again)} re-squeeze paths')
+
+
+_run0 = run
+
+
+def run(funcs, results):
+    _run0(funcs, results)
+    try:
+        sample_in_ball(funcs, results)
+    except (e2.Refuse, KeyError, IndexError) as ex:
+        results.append({'name': 'samplers.sample_in_ball', 'tags': ['C03', 'C02'], 'verdict': 'refused', 'detail': repr(ex)})
